@@ -32,6 +32,7 @@ class Obl:
     only: str = ""          # regex: of the harness's own OBS assertions, only these belong to this property
     confirm: str = ""       # confirmation harness run when only INT (representation) assertions fail
     mem_gb: int = 0         # estimated peak memory of the CBMC run (heavy ones are run with fewer jobs)
+    no_playback: str = ""   # reason why a counterexample of this harness cannot be replayed by a native single-threaded run
 
 
 def _c01() -> List[Obl]:
@@ -817,6 +818,13 @@ def _c15() -> List[Obl]:
         out.append(Obl(id=f"c15.default_instance.{t}", prop="C15", engine="native", target=f"c15_default:c15_default_{t}", kind="bounded",
                        bound="concrete execution: " + b, fns=["CodesStats<10,20,10,10,10>::{update, update_many, add, best_code}"]))
     for hm, E in (("hbe", "BE"), ("hle", "LE")):
+        for disp, tr in (("", "DynamicCode"), ("static_", "StaticCode")):
+            rw = "read" if E == "BE" else "write"
+            out.append(Obl(id=f"c15.shared.{disp}{rw}", prop="C15", engine="kani", target=f"obl_c15::small_shared_{disp}{rw}",
+                           fns=[f"<CodesStatsWrapper as {tr}{rw.capitalize()}>::{rw} (critical sections on the statistics lock under arbitrary interference of other threads)"],
+                           note="rely/guarantee on the lock: Mutex::lock is stubbed to overwrite the protected value with an arbitrary one at every acquisition (what other threads may have done); "
+                                "every critical section must leave the value unchanged or apply exactly update(value), exactly one applies it; instance <3,4,3,3,3>; mutual exclusion of std::sync::Mutex is trusted",
+                           no_playback="the counterexample is an interference schedule (values other threads store between two critical sections), which a single-threaded native run cannot reproduce; Kani's trace values are attached"))
         out.append(Obl(id=f"c15.wrapper.{E}", prop="C15", engine="native", target=f"c10_grid:c10_grid_stats_{E.lower()}", kind="bounded",
                        bound="concrete execution: 51 identifiers x 11 values", fns=["CodesStatsWrapper::{read,write}: pass-through and exactly one update(value) per successful operation"]))
     return out
